@@ -13,7 +13,7 @@ const tenH = 10 * time.Hour
 func profile() *vtx.Profile {
 	depth := 4
 	allocL := []int64{-1, 0, 1, 600, 3599, 3600, 4294967295}
-	refreshL := []int64{-1, 0, 2, 601, 3599, 3601}
+	refreshL := []int64{-1, 0, 2, 3599, 3601}
 	if rep.Thorough() {
 		depth = 5
 		allocL = []int64{-1, 0, 1, 2, 599, 600, 601, 3599, 3600, 3601, 4294967295}
@@ -41,6 +41,8 @@ func profile() *vtx.Profile {
 			for _, l := range refreshL {
 				ev = append(ev, vtx.Event{K: "refresh", C: "c1", L: l})
 			}
+			// refused Refresh requests (address family mismatch): must change nothing
+			ev = append(ev, vtx.Event{K: "refresh", C: "c1", L: 0, Fam: 6}, vtx.Event{K: "refresh", C: "c1", L: 3000, Fam: 6})
 			ev = append(ev, vtx.Event{K: "perm", C: "c1", Peers: []string{"A"}, L: -1},
 				vtx.Event{K: "chan", C: "c1", N: 0x4000, Peers: []string{"A"}, L: -1})
 			ev = append(ev, vtx.AdvanceMenu(m, now, []time.Duration{time.Nanosecond, time.Second}, []time.Duration{31 * time.Second})...)
